@@ -485,6 +485,80 @@ pub fn configs(thorough: bool) -> Vec<Config> {
         "d6 d5 d4",
         None,
     ));
+    // 10e/f. the same two with four more frozen pieces (12 pieces on the board): everything that is keyed on "many pieces"
+    //        or on long lists meets the rare all-frozen / everything-withheld states here
+    v.push(cfg(
+        "frozen army padded to 12 pieces, one mobile dog: D d5 pushed back by e d6, rabbit e4 can be pulled; C a1 / R c1 / R f1 / R h1 frozen by d a2 / h c2 / h f2 / c h2",
+        [
+            "               r ",
+            "                 ",
+            "     x e   x     ",
+            "       D         ",
+            "         r       ",
+            "     x     x     ",
+            " d   h     h   c ",
+            " C   R     R   R ",
+        ],
+        false,
+        "d3 d4 d5",
+        "d6 d5 d4 e4",
+        None,
+    ));
+    v.push(cfg(
+        "frozen army padded to 12 pieces, one mobile dog (Silver): d d4 pushed back by E d3, rabbit R e5 can be pulled; c a8 / r c8 / r f8 / r h8 frozen by D a7 / H c7 / H f7 / C h7",
+        [
+            " c   r     r   r ",
+            " D   H     H   C ",
+            "     x     x     ",
+            "         R       ",
+            "       d         ",
+            "     x E   x     ",
+            "                 ",
+            "               R ",
+        ],
+        true,
+        "d3 d4 d5 e5",
+        "d6 d5 d4",
+        None,
+    ));
+    // 10g. a dense board (18 pieces, two developed armies that never enter the corner): the equal-strength corner game
+    //      of configuration 2 with long offered lists around it
+    v.push(cfg(
+        "dense board (18 pieces): C a1 vs c b2 (equal strength), Gold in {a1,b1,a2}, Silver in {b2,b1,a2,b3}, two developed armies elsewhere, all games of 9 turns",
+        [
+            "       r   h   r ",
+            "         d   c   ",
+            "     x m   x   h ",
+            "           e     ",
+            "         E       ",
+            "     x   H x   M ",
+            "   c       D   C ",
+            " C     R   R   H ",
+        ],
+        true,
+        "a1 b1 a2",
+        "b2 b1 a2 b3",
+        Some(9),
+    ));
+    if thorough {
+        v.push(cfg(
+            "dense board (18 pieces): D a1 vs c b2, common 2x2 corner window a1-b2, two developed armies elsewhere",
+            [
+                "       r   h   r ",
+                "         d   c   ",
+                "     x m   x   h ",
+                "           e     ",
+                "         E       ",
+                "     x   H x   M ",
+                "   c       C   C ",
+                " D     R   R   H ",
+            ],
+            true,
+            "a1 b1 a2 b2",
+            "a1 b1 a2 b2",
+            None,
+        ));
+    }
     // 11. repetition play right after a real setup phase (history starts with the entry written by the 32nd placement)
     {
         let mut c = cfg(
@@ -516,6 +590,62 @@ pub fn configs(thorough: bool) -> Vec<Config> {
             "d4 e4 d5 e5 d6 e6",
             Some(4),
         ));
+    }
+    v
+}
+
+/// Kind sweep: the same tiny confined game for EVERY pair (Gold type, Silver type) - so that the repetition machinery
+/// (look-ahead hash of a 4th step, pass hash, history append / clear) is exercised with every piece type as the moved,
+/// pushed, pulled or captured piece, for either side moving first.
+/// `corner`: common 2x2 window a1-b2, Gold X on a1, Silver y on b2 (no trap: pure repetition play, pushes and pulls when
+/// the strengths differ).  `trap`: common 2x2 window b3-c2 that contains trap c3, Gold X on b2, Silver y on c2 (a piece
+/// that steps or is pushed / pulled onto c3 is captured, the history is forgotten, the survivor plays on).
+pub fn kind_sweep(thorough: bool) -> Vec<Config> {
+    let letters = ['E', 'M', 'H', 'D', 'C', 'R'];
+    let mut v = vec![];
+    for (gi, g) in letters.iter().enumerate() {
+        for (si, sl) in letters.iter().enumerate() {
+            let s = sl.to_ascii_lowercase();
+            for gold_first in [true, false] {
+                // quick: side to move alternates over the pairs; thorough: both
+                if !thorough && gold_first != ((gi + si) % 2 == 0) {
+                    continue;
+                }
+                let who = if gold_first { "Gold" } else { "Silver" };
+                let r2 = format!("   {}             ", s);
+                let r1 = format!(" {}             R ", g);
+                if gi == si {
+                    // equal strength: nobody is ever frozen, the common window explodes in the number of histories;
+                    // L-shaped domains, every game of 9 turns
+                    v.push(cfg(
+                        &format!("kind sweep corner: {} a1 vs {} b2 (equal strength), Gold in {{a1,b1,a2}}, Silver in {{b2,b1,a2,b3}}, {} to move, all games of 9 turns", g, s, who),
+                        ["               r ", "                 ", "     x     x     ", "                 ", "                 ", "     x     x     ", &r2, &r1],
+                        gold_first,
+                        "a1 b1 a2",
+                        "b2 b1 a2 b3",
+                        Some(9),
+                    ));
+                } else {
+                    v.push(cfg(
+                        &format!("kind sweep corner: {} a1 vs {} b2, common 2x2 window a1-b2, {} to move", g, s, who),
+                        ["               r ", "                 ", "     x     x     ", "                 ", "                 ", "     x     x     ", &r2, &r1],
+                        gold_first,
+                        "a1 b1 a2 b2",
+                        "a1 b1 a2 b2",
+                        None,
+                    ));
+                }
+                let t2 = format!("   {} {}           ", g, s);
+                v.push(cfg(
+                    &format!("kind sweep trap: {} b2 vs {} c2, common 2x2 window b3-c2 containing trap c3, {} to move", g, s, who),
+                    ["               r ", "                 ", "     x     x     ", "                 ", "                 ", "     x     x     ", &t2, "               R "],
+                    gold_first,
+                    "b3 c3 b2 c2",
+                    "b3 c3 b2 c2",
+                    None,
+                ));
+            }
+        }
     }
     v
 }
@@ -563,6 +693,12 @@ pub fn lasso_pairs(thorough: bool) -> Vec<(usize, usize)> {
 /// Gold E walks the perimeter of a 2 x ka rectangle on ranks 2/1, Silver e that of a 2 x kb rectangle on ranks 8/7
 /// (one step and a pass per turn); rabbits parked on h4 / h5.
 pub fn run_lasso(prop: &str, checks: u32, ka: usize, kb: usize, rot: usize, prefix: usize, idx: u64) -> FamilyResult {
+    run_lasso_padded(prop, checks, ka, kb, rot, prefix, idx, false)
+}
+
+/// `pad`: the files to the right of both rings (one empty file in between) are filled on ranks 1-2 with Gold's and on
+/// ranks 7-8 with Silver's remaining pieces: the same long cyclic histories on a board with many pieces and long lists.
+pub fn run_lasso_padded(prop: &str, checks: u32, ka: usize, kb: usize, rot: usize, prefix: usize, idx: u64, pad: bool) -> FamilyResult {
     let t0 = Instant::now();
     let ga = ring(6, ka);
     let sb = ring(0, kb);
@@ -593,7 +729,25 @@ pub fn run_lasso(prop: &str, checks: u32, ka: usize, kb: usize, rot: usize, pref
     let silver_cat: Vec<usize> = (0..7).map(|f| 3 * 8 + 7 - f).collect();
     board[gold_cat[0]] = rm::cell(true, 1);
     board[silver_cat[0]] = rm::cell(false, 1);
-    let family = format!("E8 lassos: Gold E round a {}-square ring (a2..), Silver e round a {}-square ring (a8..), one step + pass per turn; cycle of {} turn-start positions walked twice from EVERY one of its positions as root (small rings: after 0..=12 irreversible prefix turns by two cats), third entry attempted", la, lb, 2 * lcm);
+    let mut padded = 0usize;
+    if pad {
+        // strengths: M 4, H 3, H 3, D 2, D 2, C 1, then rabbits (one rabbit and one cat of each side are already placed)
+        let army: [u8; 13] = [4, 3, 3, 2, 2, 1, 0, 0, 0, 0, 0, 0, 0];
+        let first_file = ka.max(kb) + 1;
+        for gold in [true, false] {
+            let mut n = 0;
+            for f in first_file..8 {
+                for row in if gold { [6usize, 7] } else { [1usize, 0] } {
+                    if n < army.len() && board[row * 8 + f] == rm::EMPTY {
+                        board[row * 8 + f] = rm::cell(gold, army[n]);
+                        n += 1;
+                        padded += 1;
+                    }
+                }
+            }
+        }
+    }
+    let family = format!("E8 lassos: Gold E round a {}-square ring (a2..), Silver e round a {}-square ring (a8..), one step + pass per turn; cycle of {} turn-start positions walked twice from EVERY one of its positions as root (small rings: after 0..=12 irreversible prefix turns by two cats), third entry attempted{}", la, lb, 2 * lcm, if pad { format!("; PADDED with {} further pieces on the free files of the home ranks", padded) } else { String::new() });
     let root = RootInfo { how: if idx % 2 == 1 { RootHow::Parsed } else { RootHow::Constructed }, explorer: "E8", family: family.clone(), idx, board, gold: rot % 2 == 0, move_number: 2, config: serde_json::json!({"ring_gold": la, "ring_silver": lb, "rotation": rot, "prefix_turns": prefix}) };
     let mut ctx = Ctx::new(checks, prop, &root);
     let mut complete = true;
@@ -675,8 +829,12 @@ pub fn run_lasso(prop: &str, checks: u32, ka: usize, kb: usize, rot: usize, pref
 }
 
 pub fn run_lassos(prop: &str, checks: u32, thorough: bool) -> Vec<FamilyResult> {
+    // the long histories matter for the properties that read the history (repetition rules, summary queries, recorded
+    // hashes, move number); the others get the smallest ring pair in the quick tier
+    let history_property = matches!(prop, "C03" | "C05" | "C06" | "C07" | "C08");
+    let pairs = if thorough || history_property { lasso_pairs(thorough) } else { vec![(2, 3)] };
     let mut out = vec![];
-    for (pi, &(a, b)) in lasso_pairs(thorough).iter().enumerate() {
+    for (pi, &(a, b)) in pairs.iter().enumerate() {
         let (la, lb) = (2 * a, 2 * b);
         let g = {
             let (mut x, mut y) = (la, lb);
@@ -691,7 +849,23 @@ pub fn run_lassos(prop: &str, checks: u32, thorough: bool) -> Vec<FamilyResult> 
         // the small rings additionally with 1..=12 irreversible prefix turns (all alignments of the cycle in the history)
         let max_prefix = if cycle <= 60 || thorough { 12 } else { 0 };
         let jobs: Vec<(usize, usize)> = (0..cycle).flat_map(|rot| (0..=max_prefix).map(move |p| (rot, p))).collect();
-        let rs: Vec<FamilyResult> = jobs.par_iter().map(|&(rot, p)| run_lasso(prop, checks, a, b, rot, p, (pi * 100_000 + rot * 100 + p) as u64)).collect();
+        let mut rs: Vec<FamilyResult> = jobs.par_iter().map(|&(rot, p)| run_lasso(prop, checks, a, b, rot, p, (pi * 100_000 + rot * 100 + p) as u64)).collect();
+        if a.max(b) <= 5 && (history_property || thorough) {
+            // the same lassos on a board with many pieces (free files of the home ranks filled)
+            let rp: Vec<FamilyResult> = jobs.par_iter().map(|&(rot, p)| run_lasso_padded(prop, checks, a, b, rot, p, (50_000_000 + pi * 100_000 + rot * 100 + p) as u64, true)).collect();
+            let mut it = rp.into_iter();
+            let mut first = it.next().unwrap();
+            for r in it {
+                first.complete &= r.complete;
+                if !r.note.is_empty() {
+                    first.note = r.note.clone();
+                }
+                first.wall_s += r.wall_s;
+                first.stats = std::mem::take(&mut first.stats).merge(r.stats);
+            }
+            out.push(first);
+        }
+        let _ = &mut rs;
         // fold the rotations of one ring pair into one family row
         let mut it = rs.into_iter();
         let mut first = it.next().unwrap();
@@ -706,4 +880,152 @@ pub fn run_lassos(prop: &str, checks: u32, thorough: bool) -> Vec<FamilyResult> 
         out.push(first);
     }
     out
+}
+
+
+// ---------------------------------------------------------------------------------------------------------------
+// E9 - seed shuffles: the repetition rules on DENSE boards.  From every full-board seed (both sides to move) two
+// pieces per side shuffle back and forth so that a cycle of four turn-start positions is walked twice and the third
+// entry is attempted.  The side on move at the root ends its turns by a pass (step, pass); the other side either does
+// the same (`four == false`: the third occurrence would be produced by a pass) or plays four-step turns a, a', a, c
+// (`four == true`: the third occurrence would be produced by a FOURTH STEP).  One scripted path per (seed, side,
+// candidate, variant), but every enabled oracle is evaluated on all offered actions of every state on it.
+// ---------------------------------------------------------------------------------------------------------------
+
+/// reversible single steps (from, dir, to) of non-rabbit pieces of `gold` onto empty squares that are not traps and not
+/// next to a trap (a shuffle must not capture anything), at most one per piece, in board order; `rot` rotates the
+/// direction preference (so that the scripted turn-ending steps sit at different places of the generated lists)
+fn shuffle_candidates(b: &rm::Board, gold: bool, rot: usize) -> Vec<(usize, usize, usize)> {
+    let near_trap = |i: usize| rm::is_trap(i) || (0..4).any(|d| rm::nb(i, d).map_or(false, rm::is_trap));
+    let mut v: Vec<(usize, usize, usize)> = vec![];
+    for from in 0..64usize {
+        let c = b[from];
+        if c == rm::EMPTY || rm::is_gold(c) != gold || rm::strength(c) == rm::RABBIT || near_trap(from) || rm::frozen(b, from) {
+            continue;
+        }
+        for dd in 0..4 {
+            let d = (dd + rot) % 4;
+            if let Some(to) = rm::nb(from, d) {
+                // the target must be empty, away from traps, and not the target of another candidate
+                if b[to] == rm::EMPTY && !near_trap(to) && !v.iter().any(|x| x.2 == to) {
+                    v.push((from, d, to));
+                    break;
+                }
+            }
+        }
+    }
+    v
+}
+
+/// E9: `k` Gray-code pieces per side => a cycle of 2 * 2^k turn-start positions; walked twice, third entry attempted:
+/// the history then holds 4 * 2^k + 1 entries (k = 3: 33) on a dense board.
+pub fn run_seed_shuffles(prop: &str, checks: u32, thorough: bool) -> Vec<FamilyResult> {
+    let t0 = Instant::now();
+    let fam = crate::families::fs_variants(&crate::verif_dir().join("seeds"), 1, 1);
+    let ks: Vec<usize> = if thorough { vec![1, 2, 3, 4] } else { vec![1, 3] };
+    let rots: Vec<usize> = if thorough { vec![0, 1, 2, 3] } else { vec![0, 3] };
+    let family = format!("E9 seed shuffles: from each of the {} full-board seed roots, k in {:?} pieces per side step out and back in Gray-code order (mover: step + pass; other side: step + pass, or four-step turns f f' f x) so that a cycle of 2*2^k turn-start positions is walked twice and the third entry is attempted (history of 4*2^k+1 entries on a dense board); direction preferences {:?}", fam.n, ks, rots);
+    let mut jobs: Vec<(u64, usize, bool, usize)> = vec![];
+    for i in 0..fam.n {
+        for &k in ks.iter() {
+            for four in [false, true] {
+                for &rot in rots.iter() {
+                    jobs.push((i, k, four, rot));
+                }
+            }
+        }
+    }
+    let stats = jobs
+        .par_iter()
+        .map(|&(idx, k, four, rot)| {
+            let (board, gold) = match (fam.decode)(idx) {
+                Some(x) => x,
+                None => return Stats::default(),
+            };
+            let root = RootInfo { how: if idx % 2 == 1 { RootHow::Parsed } else { RootHow::Constructed }, explorer: "E9", family: family.clone(), idx, board, gold, move_number: 2, config: serde_json::json!({"gray_pieces_per_side": k, "other_side_plays_four_step_turns": four, "direction_preference_rotation": rot}) };
+            let mut ctx = Ctx::new(checks, prop, &root);
+            let mover = shuffle_candidates(&board, gold, rot);
+            let other = shuffle_candidates(&board, !gold, rot);
+            // the other side needs one more piece (the filler of its four-step turns)
+            if mover.len() < k || other.len() < k + four as usize {
+                ctx.stats.add("e9_paths_without_candidates", 1);
+                return std::mem::take(&mut ctx.stats);
+            }
+            let period = 1usize << k;
+            // reflected Gray code: the i-th toggle flips bit trailing_zeros(i + 1); the last one closes the cycle
+            let gray = |i: usize| -> usize { if i % period == period - 1 { k - 1 } else { ((i % period) + 1).trailing_zeros() as usize } };
+            let fwd = |x: (usize, usize, usize)| action_of(x.0, x.1);
+            let back = |x: (usize, usize, usize)| action_of(x.2, (x.1 + 2) % 4);
+            let pieces0 = board.iter().filter(|&&c| c != rm::EMPTY).count();
+            let total_turns = 2 * 2 * period * 2; // two laps are completed after 4 * 2^k turns; a margin for the third
+            let r = catch_unwind(AssertUnwindSafe(|| {
+                let mut node = root_node(&root);
+                turn_start_oracles(&mut ctx, &node, None);
+                let mut out_m = vec![false; k];
+                let mut out_o = vec![false; k];
+                let mut filler_out = false;
+                let mut withheld = false;
+                'game: for turn in 0..total_turns {
+                    let movers_turn = turn % 2 == 0;
+                    let t = turn / 2;
+                    let j = gray(t);
+                    let mut script: Vec<Action> = vec![];
+                    if movers_turn {
+                        script.push(if out_m[j] { back(mover[j]) } else { fwd(mover[j]) });
+                        out_m[j] = !out_m[j];
+                        script.push(Action::Pass);
+                    } else {
+                        if four {
+                            let f = other[k];
+                            let (a, b) = if filler_out { (back(f), fwd(f)) } else { (fwd(f), back(f)) };
+                            script.extend([a, b, a]);
+                            filler_out = !filler_out;
+                        }
+                        script.push(if out_o[j] { back(other[j]) } else { fwd(other[j]) });
+                        out_o[j] = !out_o[j];
+                        if !four {
+                            script.push(Action::Pass);
+                        }
+                    }
+                    let second_lap_done = turn + 1 >= 4 * period;
+                    for (si, want) in script.iter().enumerate() {
+                        ctx.stats.states += 1;
+                        let succ = visit(&mut ctx, &node);
+                        match succ.into_iter().find(|s| s.action == *want) {
+                            Some(s) => {
+                                if s.node.board.iter().filter(|&&c| c != rm::EMPTY).count() != pieces0 {
+                                    ctx.stats.add("e9_paths_abandoned", 1);
+                                    break 'game;
+                                }
+                                node = s.node;
+                                ctx.path.push(*want);
+                            }
+                            None => {
+                                if second_lap_done && si + 1 == script.len() {
+                                    withheld = true;
+                                } else {
+                                    ctx.stats.add("e9_paths_abandoned", 1);
+                                }
+                                break 'game;
+                            }
+                        }
+                    }
+                }
+                if withheld {
+                    ctx.stats.add(if four { "e9_third_occurrence_by_fourth_step_withheld" } else { "e9_third_occurrence_by_pass_withheld" }, 1);
+                    ctx.stats.max("e9_longest_history_at_a_withheld_third_occurrence", node.hist.len() as u64);
+                }
+            }));
+            if r.is_err() {
+                let q = ctx.query;
+                ctx.fail(&format!("panic in the engine during `{}` on a reachable state", if q.is_empty() { "(harness code)" } else { q }), last_panic(), "returns normally".into());
+            }
+            ctx.stats.roots = 1;
+            if idx < 4 && rot == 0 && k == ks[0] {
+                ctx.stats.sample(idx * 2 + four as u64, format!("seed root #{} ({} to move), {} Gray piece(s) per side, first shuffle steps {} / {}{}:\n{}", idx, if gold { "Gold" } else { "Silver" }, k, fwd(mover[0]), fwd(other[0]), if four { " (four-step turns)" } else { "" }, rm::diagram(&board, gold, 2)));
+            }
+            std::mem::take(&mut ctx.stats)
+        })
+        .reduce(Stats::default, Stats::merge);
+    vec![FamilyResult { explorer: "E9".into(), family, complete: !report::stopped(), note: String::new(), stats, wall_s: t0.elapsed().as_secs_f64() }]
 }
